@@ -118,8 +118,8 @@ EXPORT errno_t _memcmp16_s_chk(const uint16_t *dest, rsize_t dlen,
         return (RCNEGATE(ESZEROL));
     }
 
-    dmax = dlen * 2;
-    smax = slen * 2;
+    dmax = SAFEC_MUL_SAT(dlen, 2);
+    smax = SAFEC_MUL_SAT(slen, 2);
     if (destbos == BOS_UNKNOWN) {
         if (unlikely(dmax > RSIZE_MAX_MEM16)) {
             invoke_safe_mem_constraint_handler("memcmp16_s: dlen exceeds max",
